@@ -24,3 +24,18 @@ package sync2
 //@   ensures ret0 <==> old(i.int32) == ite(o, 1, 0)
 //@   ensures ret0 ==> i.int32 == ite(n, 1, 0)
 //@   ensures !ret0 ==> i.int32 == old(i.int32)
+
+// ---------------------------------------------------------------- C27 atomic counters of the recovery strategies
+//@ property C27: (*AtomicInt64).Set, (*AtomicInt64).Get, (*AtomicInt64).Add
+//@ func (*AtomicInt64).Set
+//@   requires i != nil
+//@   assigns i.int64
+//@   ensures i.int64 == n
+//@ func (*AtomicInt64).Get
+//@   requires i != nil
+//@   assigns \nothing
+//@   ensures ret0 == i.int64
+//@ func (*AtomicInt64).Add
+//@   requires i != nil && -(1<<61) <= i.int64 && i.int64 <= 1<<61 && -(1<<61) <= n && n <= 1<<61
+//@   assigns i.int64
+//@   ensures i.int64 == old(i.int64) + n && ret0 == i.int64
